@@ -65,7 +65,7 @@ Shapes == {"nil", "true", "int0", "int5", "intneg", "float", "strempty", "str", 
            "cyclist", "cycmap", "cycptr", "cycmutual", "strlong", "listlong",
            \* interface slices with methods, pointers that lead to themselves, defined pointer types, NaN keys, keys of different
            \* defined types with one value, shared sub-values sixty levels deep
-           "errslice", "stringerslice", "ptrcycle", "ptrself", "stringermap", "hiddennanmap", "ptrptrmap", "namedptr", "nanmap", "nanifacemap", "namedkeys", "dag60", "dagmap"} \cup CharShapes \cup StrShapes \cup IntEdgeShapes
+           "errslice", "stringerslice", "ptrcycle", "ptrself", "stringermap", "hiddennanmap", "structslice", "arrslice", "structmapv", "structkeymap", "intstrmap", "floatboolmap", "intnilmap", "floaterrmap", "intifacemap", "ptrptrmap", "namedptr", "nanmap", "nanifacemap", "namedkeys", "dag60", "dagmap"} \cup CharShapes \cup StrShapes \cup IntEdgeShapes
 V == Var("v")
 F0(f) == Filt(f, V, <<>>)
 Skeletons ==
@@ -102,6 +102,10 @@ Skeletons ==
     splitslice |-> <<PrintS(Filt("slice", Filt("split", V, <<LS(<<44>>)>>), <<LI(3), Un("-", LI(2))>>))>>,
     keysslice |-> <<PrintS(Filt("slice", Filt("keys", V, <<>>), <<LI(2), Un("-", LI(2))>>))>>,
     forkeys |-> <<For1("k", Filt("keys", V, <<>>), <<PrintS(Var("k"))>>)>>, firstlast |-> <<PrintS(Filt("first", V, <<>>)), PrintS(Filt("last", V, <<>>))>>,
+    idxmi |-> <<PrintS(Item(Var("mi"), V)), PrintS(Cond(Test(Item(Var("mi"), V), "defined", <<>>, FALSE), LI(1), LI(2)))>>, idxmk |-> <<PrintS(Item(Var("mk"), V))>>,
+    idxin |-> <<PrintS(Cond(Bin("in", V, Var("mi")), LI(1), LI(2))), PrintS(Cond(Bin("in", V, Var("mk")), LI(1), LI(2)))>>,
+    mergeto |-> <<PrintS(Filt("merge", Var("mis"), <<V>>)), PrintS(Filt("merge", Var("mfb"), <<V>>))>>, mergeto2 |-> <<PrintS(Filt("merge", Var("mi"), <<V>>)), PrintS(Filt("merge", V, <<Var("mis")>>))>>,
+    mergefnto |-> <<PrintS(Call("merge", <<Var("mis"), V>>)), PrintS(Call("merge", <<V, Var("mfb")>>))>>,
     attrdef |-> <<PrintS(Cond(Test(Attr(V, "a"), "defined", <<>>, FALSE), LI(1), LI(2)))>>, attrdef2 |-> <<PrintS(Cond(Test(Attr(Attr(V, "a"), "b"), "defined", <<>>, TRUE), LI(1), LI(2)))>>,
     itemdef |-> <<PrintS(Cond(Test(Item(V, LI(0)), "defined", <<>>, FALSE), LI(1), LI(2)))>>, itemdefs |-> <<PrintS(Cond(Test(Item(V, LS(<<97>>)), "defined", <<>>, FALSE), LI(1), LI(2)))>>,
     vdef |-> <<PrintS(Cond(Test(V, "defined", <<>>, FALSE), LI(1), LI(2)))>>,
@@ -254,7 +258,9 @@ CaseOf(c) ==
                        pads |-> <<[len |-> l, style |-> "b", total |-> 0]>>] : l \in TruncLens}, expect |-> AnyExpect]
       [] c.fam = "shape" ->
            [prop |-> "C05", key |-> ToJson(c), tags |-> {"fam:shape", "sk:" \o c.sk, "sh:" \o c.sh}, entry |-> "main",
-            ctx |-> ("v" :> [t |-> "shape", kind |-> c.sh]),
+            \* (next to the value: maps of fixed shapes for the skeletons that index / merge one value with another)
+            ctx |-> ("v" :> [t |-> "shape", kind |-> c.sh]) @@ ("mi" :> [t |-> "shape", kind |-> "nanifacemap"]) @@ ("mk" :> [t |-> "shape", kind |-> "structkeymap"])
+                    @@ ("mis" :> [t |-> "shape", kind |-> "intstrmap"]) @@ ("mfb" :> [t |-> "shape", kind |-> "floatboolmap"]),
             \* (the second run: the engine in debug mode, which logs the values it meets)
             runs |-> {[label |-> "shape" \o (IF dbg THEN "/debug" ELSE ""), tp |-> ("main" :> Source(Skeletons[c.sk], LMin)) @@ ("t1" :> Source(<<PrintS(Var("a"))>>, LMin))
                                                @@ ("a" :> Source(Lib, LMin)) @@ ("12" :> Source(Lib, LMin)),
